@@ -250,6 +250,20 @@ func (ck *checker) routes(e *jpref.Eq, elem any, class string, cs map[string]any
 				return -1
 			}
 			sfx := " in "
+			if fname != "Filter" {
+				// a shared filter value must read the document operands anew for every document: first hand
+				// it other documents (an empty one and the element of the previous case), then the real one
+				c.Cover("route:document-rooted-operands-after-other-documents")
+				_ = mon.Guard(func() {
+					for _, other := range []any{[]any{map[string]any{}}, []any{prevElem}, []any{map[string]any{"w": prevElem}}} {
+						if rep == "gen" {
+							other = toGen(other)
+						}
+						_ = fx.Get(other)
+						_ = fx.Has(other)
+					}
+				})
+			}
 			run(fname+sfx+"Get("+rep+")", func() bool { return len(fx.Get(doc())) == 1 })
 			run(fname+sfx+"Has("+rep+")", func() bool { return fx.Has(doc()) })
 			run(fname+sfx+"First("+rep+")", func() bool { _, found := fx.FirstFound(doc()); return found })
@@ -276,8 +290,12 @@ func (ck *checker) routes(e *jpref.Eq, elem any, class string, cs map[string]any
 			})
 		}
 	}
+	prevElem = elem
 	return res, ok
 }
+
+// prevElem is the element of the previous case (a different document for the same kind of script).
+var prevElem any
 
 // rootify returns e with its element-rooted operand paths (@...) rooted at the document ($[0]...), for a
 // document that is a one-element list holding the element; filters nested inside a path keep their @. With
